@@ -287,6 +287,8 @@ def apply_model(m: AclM, op: dict) -> Expect:  # noqa: C901
                 if not b.grouped:
                     b.seq = r.seq
         return Expect(m)
+    if k == "set_note":
+        return Expect(m)
     if k == "set_remark_text":
         if n:
             b = m.blocks[op["i"] % n]
